@@ -20,6 +20,9 @@ abbrev HMap := List (Bytes × Bytes)
 
 namespace HMap
 
+/-- an ASCII header name given as a string literal (reduces in the kernel, unlike `toUTF8`) -/
+def name (s : String) : Bytes := s.toList.map (fun c => UInt8.ofNat c.toNat)
+
 def getAll (k : Bytes) (m : HMap) : List Bytes :=
   m.filterMap (fun e => if e.1 = k then some e.2 else none)
 
